@@ -18,7 +18,8 @@ Dhs     == {"25519", "P256"}
 Row(p, ps, d, c, h) ==
   LET nm == NameOf(p, PskMods(ps), d, c, h) IN
   [name |-> nm, pat |-> p, psks |-> ps, dh |-> d, cipher |-> c, hash |-> h,
-   publen |-> PubLen(d), initpad |-> Len(nm) <= HashLen(h)]
+   publen |-> PubLen(d), initpad |-> Len(nm) <= HashLen(h), oneway |-> p \in OneWay,
+   nmsgs |-> NumMsgs(p)]
 
 RoundTrip(p, ps, d, c, h) ==
   LET r == ParseName(NameOf(p, PskMods(ps), d, c, h)) IN
